@@ -25,9 +25,9 @@ OUTSIDE = ["more than 2 (quick) / 4 (thorough) ACs, more than one (quick) / two 
            "AT4 installations without any group (the protocol's empty names answer is byte-identical to the request)",
            "ability records whose bitmap/start/count name groups the names answer did not list (inconsistent console)",
            "a final answer arriving at exactly the 5 s limit (tie)"]
-ASSUMPTIONS = ["foreign-addressed extra frames are another client's command (to 0x80 from 0xB1), not a forged answer of the kind currently awaited"]
+ASSUMPTIONS = ["foreign-addressed extra frames are another client's command or request (addressed to the console, from 0xB1), not a forged answer of the kind currently awaited"]
 
-EXTRA_KINDS = ("unsolicited_status", "stale_duplicate", "unknown_type", "foreign_command")
+EXTRA_KINDS = ("unsolicited_status", "stale_duplicate", "unknown_type", "foreign_command", "foreign_request")
 
 
 def bounds(tier):
@@ -98,6 +98,14 @@ def _extra_frame(g, kind, inst, console, step):
         if g == 4:
             return framing.frame(4, 0x80, 0xB1, 0x57, 0x2A, [1, 0x03, 0, 0])
         return framing.frame(5, 0x80, 0xB1, 0x57, 0xC0, framing.c0(0x20, [], 4, 1, [1, 0x03, 0xFF, 0]))
+    if kind == "foreign_request":
+        # another client's request of the kind currently awaited (addressed to the console, from 0xB1): must be ignored
+        ext = {"version": 0xFF30, "names": 0xFF12 if g == 4 else 0xFF13, "ability": 0xFF11}
+        if step in ext:
+            return framing.frame(g, 0x90, 0xB1, 0x59, 0x1F, framing.ext(ext[step], []))
+        if g == 4:
+            return framing.frame(4, 0x80, 0xB1, 0x59, {"ac_status": 0x2D, "timer_status": 0x37, "zone_status": 0x2B}[step], [])
+        return framing.frame(5, 0x80, 0xB1, 0x59, 0xC0, framing.c0({"ac_status": 0x23, "timer_status": 0x33, "zone_status": 0x21}[step], [], 0, 0, []))
     return None   # stale_duplicate is resolved at answer time
 
 
